@@ -67,14 +67,14 @@ DISP_ASSUME = ["coordinates and displacement parameters lie within +-2^22 (call-
                "string layout produced by format!/quote_name after the coordinates are fixed is not specified",
                "displace_links applies its map to every key; displace_cells/displace_cf_ranges visit every formula/range (not under contract)"]
 prop("C12",
-     units=["refshift", "refarms", "strenv", "dispsites"],
+     units=["refshift", "refarms", "strenv", "dispsites", "movecols"],
      level="proof",
      claim="on insertion every reference coordinate goes through shift(x,p,+k) (so it keeps pointing at the same cell; ranges over the insertion point grow), "
            "off-grid results (row or column) print #REF!, both corners of a range are displaced alike, and link keys / CF corners / the DisplaceData built by insert_rows/insert_columns are the same shift",
      assumptions=DISP_ASSUME,
      residual="cell content/type/style preservation goes through move_cell -> text re-entry (string semantics); array-formula footprints")
 prop("C13",
-     units=["refshift", "refarms", "strenv", "dispsites"],
+     units=["refshift", "refarms", "strenv", "dispsites", "movecols"],
      level="proof",
      claim="on deletion every reference coordinate goes through shift(x,p,-k): before the band untouched, inside the band => #REF! (None), after it shifted by -k; same for link keys, CF corners and the DisplaceData built by delete_rows/delete_columns",
      assumptions=DISP_ASSUME,
